@@ -4,7 +4,7 @@
 use super::*;
 use crate::dev::verif_env::*;
 use crate::meta::verif_header::{any_geo, info_of, mk_header, Geo};
-use crate::meta::{RefTable, Table};
+use crate::meta::{RefTable, Table, TableEntry};
 use crate::verif_spec as spec;
 
 fn fmt_stub2(_a: core::fmt::Arguments<'_>) -> String {
